@@ -17,8 +17,8 @@ import time
 from .. import build, core, tsan
 
 LEVEL = "exploration"
-NO_PROGRESS_S = 12.0
-IN_STOP_S = 25.0
+NO_PROGRESS_S = 20.0   # nothing at all observed for this long outside a stop
+IN_STOP_S = 25.0       # a stop open this long after the last delivery of what it found pending (or other control event)
 EXIT_PATHS = ("P3", "P4", "P5", "P3C", "P3T", "P3O")
 
 
@@ -116,15 +116,18 @@ def run_child(ctx, sc, idx):
     offset, last_change = 0, time.time()
     last_control, open_stops = last_change, 0
     status = {"hung": False, "stacks": ""}
+    pending, early, pre = set(), set(), set()   # accepted and undelivered; delivered before its 'A' line; pending when the open stop began
     while True:
         try:
             p.wait(timeout=0.25)
             break
         except subprocess.TimeoutExpired:
             pass
-        # progress = a control event (stop begin/end, move, marker, producer finished) or - outside a stop - a delivery.  Producers that
-        # merely keep calling do not count, and neither do deliveries while a stop is open for longer than IN_STOP_S: a stop that is
-        # still "draining" after that long (every scenario's backlog needs a few seconds at most) does not return in bounded time.
+        # progress = a control event (stop begin/end, move, marker, producer finished), or - outside a stop - any delivery, or - while a
+        # stop is open - the delivery of a message that was pending when the stop began.  Producers that merely keep calling do not
+        # count, and neither do deliveries of what was accepted after the stop began: "bounded time" is bounded by the work the stop
+        # found, so a stop that is still open IN_STOP_S after the last such step does not return in bounded time, while one that is slowly
+        # working through its own backlog on a loaded machine is making progress.
         control = delivered = False
         try:
             with open(evf, "rb") as f:
@@ -133,10 +136,43 @@ def run_child(ctx, sc, idx):
             nl = chunk.rfind(b"\n")
             if nl >= 0:
                 offset += nl + 1
-                body = b"\n" + chunk[:nl + 1]
-                open_stops += body.count(b"\nS ") - body.count(b"\nE ")
-                control = any(m in body for m in (b"\nS ", b"\nE ", b"\nM ", b"\n# ", b"\nX "))
-                delivered = b"\nD " in body
+                for line in chunk[:nl].split(b"\n"):
+                    k = line[:1]
+                    if k == b"D":
+                        try:
+                            v = int(line.split()[2])
+                        except (IndexError, ValueError):
+                            continue
+                        if v in pending:
+                            pending.discard(v)
+                        else:
+                            early.add(v)
+                        if open_stops <= 0:
+                            delivered = True
+                        elif v in pre:
+                            pre.discard(v)
+                            control = True
+                    elif k == b"A":
+                        try:
+                            v = int(line.split()[2])
+                        except (IndexError, ValueError):
+                            continue
+                        if v in early:
+                            early.discard(v)
+                        else:
+                            pending.add(v)
+                    elif k == b"S":
+                        if open_stops <= 0:
+                            pre = set(pending)
+                        open_stops += 1
+                        control = True
+                    elif k == b"E":
+                        open_stops -= 1
+                        control = True
+                    elif k in (b"M", b"#", b"X"):
+                        control = True
+                    elif k == b"C":
+                        pass
         except OSError:
             pass
         now = time.time()
@@ -144,10 +180,10 @@ def run_child(ctx, sc, idx):
             last_control = last_change = now
         elif delivered:
             last_change = now
-        stuck = now - last_change > NO_PROGRESS_S or (open_stops > 0 and now - last_control > IN_STOP_S)
+        stuck = (now - last_change > NO_PROGRESS_S) if open_stops <= 0 else (now - last_control > IN_STOP_S)
         if stuck:
             status["hung"] = True
-            status["delivering"] = now - last_change <= NO_PROGRESS_S   # cut off because a stop stayed open, not because all went quiet
+            status["open_stop_cutoff"] = open_stops > 0
             try:
                 g = subprocess.run(["gdb", "-p", str(p.pid), "-batch", "-ex", "thread apply all bt 12"], stdout=subprocess.PIPE,
                                    stderr=subprocess.DEVNULL, timeout=60, text=True, errors="replace")
@@ -233,7 +269,7 @@ def judge(sc, events, status):
         open_stop = [c for c, (s, e) in stops.items() if s is not None and e is None]
         phase = "in-stop" if open_stop else ("at-exit" if main_return is not None else "running")
         undel = len([v for v in A if v not in D])
-        if open_stop and status.get("delivering") and sc["racers"]:
+        if open_stop and status.get("open_stop_cutoff") and sc["racers"]:
             # the worker is alive and delivering and the stop has been open for IN_STOP_S: if the backlog is larger now than when the stop
             # began, the stop kept queueing what the producers logged while it was in progress, faster than the sink delivers - the same
             # defect as a stop that returns only after the producers ceased, cut off before it got there (whether or not the producers
@@ -247,7 +283,8 @@ def judge(sc, events, status):
                             "still logging): backlog %d at its start, %d now" % (IN_STOP_S, after, sc["racers"] - len(X), sc["racers"], pending_at_s, undel)))
                 return out, stats
         out.append(("C04:no-progress:path=%s:phase=%s:%s" % (path, phase, "backlog>0" if undel else "backlog=0"),
-                    "child made no progress for %.0f s (%d accepted messages undelivered); stacks:\n%s" % (NO_PROGRESS_S, undel, status["stacks"][:2500])))
+                    "child made no progress for %.0f s (%d accepted messages undelivered); stacks:\n%s"
+                    % (IN_STOP_S if status.get("open_stop_cutoff") else NO_PROGRESS_S, undel, status["stacks"][:2500])))
         return out, stats
     # drained at each stop
     for c, (s, e) in sorted(stops.items()):
